@@ -33,6 +33,8 @@ type c14Model struct {
 	RepNamed           []string
 	RepSigned          []string
 	AttForms, RepForms int // forms created so far (bounded)
+	Second             bool // a second pair of forms (about Q1) has been requested
+	Restarted          bool // the storage module has been restarted from its exported genesis
 }
 
 func (m c14Model) Key() []byte { return jkey(m) }
@@ -86,6 +88,12 @@ func (s C14) Events(env world.Env, mm mc.Model) []string {
 		evs = append(evs, "Report:"+x+":V")
 	}
 	evs = append(evs, "Attest:Q2:Q3", "Report:Q2:Q3") // forms that were never requested
+	if !m.Second {
+		evs = append(evs, "Forms2") // Q1 requests an attestation form about itself and U a report form about Q1
+	}
+	if !m.Restarted {
+		evs = append(evs, "Restart") // the storage module restarts from its own exported genesis
+	}
 	if m.Blocks < 2 {
 		evs = append(evs, "NextBlock")
 	}
@@ -138,6 +146,35 @@ func (s C14) Apply(env world.Env, mm mc.Model, ev string) mc.Step {
 		}
 		m.Blocks++
 		st.Outcome = "block"
+	case "Forms2":
+		q1 := w.A("Q1").Bech
+		r1 := env.Deliver(storagetypes.NewMsgRequestAttestationForm(q1, c14File.merkle, u, m.Start))
+		r2 := env.Deliver(storagetypes.NewMsgRequestReportForm(u, q1, c14File.merkle, u, m.Start))
+		m.Second = true
+		if r1.OK() || r2.OK() {
+			st.Outcome = "ok"
+		}
+	case "Restart":
+		forms := func() []world.KV {
+			var out []world.KV
+			for _, kv := range w.DumpStore(env.Ctx(), "storage") {
+				if strings.HasPrefix(string(kv.K), storagetypes.AttestationKeyPrefix) || strings.HasPrefix(string(kv.K), storagetypes.ReportKeyPrefix) {
+					out = append(out, kv)
+				}
+			}
+			return out
+		}
+		before := forms()
+		err := restartModule(env, "storage")
+		after := forms()
+		m.Restarted = true
+		st.Outcome = "ok"
+		st.Exercised = append(st.Exercised, fmt.Sprintf("restart-with-%d-forms", len(before)))
+		if err != nil {
+			vs = append(vs, viol("open-forms-survive-a-restart", "restart-failed", "export -> import of the storage module failed: %v", err))
+		} else if !storeEqual(before, after) {
+			vs = append(vs, viol("open-forms-survive-a-restart", fmt.Sprintf("forms-changed n=%d", len(before)), "the open attestation/report forms differ after export -> import of the storage module: %v", storeDiffKeys(before, after)))
+		}
 	case "AttReq":
 		res := env.Deliver(storagetypes.NewMsgRequestAttestationForm(v, c14File.merkle, u, m.Start))
 		var r storagetypes.MsgRequestAttestationFormResponse
